@@ -680,6 +680,11 @@ func gen(r *hx.Rng, ctxCount func(string)) Case {
 				e.Name, _ = spell(r, nm, 50)
 			}
 		}
+		if e.Kind != "dir" { // archive/tar refuses a trailing slash on anything but a directory
+			if t := strings.TrimRight(e.Name, "/"); t != "" {
+				e.Name = t
+			}
+		}
 		names = append(names, cleanName(e.Name))
 		c.Ops = append(c.Ops, e)
 	}
@@ -688,7 +693,7 @@ func gen(r *hx.Rng, ctxCount func(string)) Case {
 	c.Prio = []string{}
 	for i := 0; i < np; i++ {
 		var p string
-		switch r.Pick(62, 10, 8, 6, 6, 8) {
+		switch r.Pick(68, 9, 8, 6, 6, 4) {
 		case 0: // an entry of the tar
 			if len(names) == 0 {
 				p = randPath()
@@ -751,6 +756,9 @@ func main() {
 		tarBytes, err := makeTar(c.Ops)
 		if err != nil {
 			ctx.Count("gen.untarable")
+			if _, ok := ctx.Extra["untarable"]; !ok {
+				ctx.Extra["untarable"] = fmt.Sprintf("%v: %+v", err, c.Ops)
+			}
 			return
 		}
 		r := runSort(c, tarBytes)
